@@ -43,8 +43,8 @@ def scan_trace(path, ctx):
 
 BALLOON_CFG = """SPECIFICATION Spec
 CONSTANTS
-  TraceFile = "%s"
-  DefsFile = "%s"
+  TraceFile = "%(trace)s"
+  DefsFile = "%(defs)s"
   NB = 256
   CL = 232
   KeyBits <- TraceKeyBits
@@ -80,7 +80,7 @@ def trace_files_stage(ctx, driver, prefix, nfiles, module="Trace_Balloon", cfg=N
     def validate(path):
         defs = path.replace(".ndjson", ".defs.ndjson")
         tag = "tv_" + os.path.basename(path).split(".")[0]
-        r = ctx.tlc(module, cfg % (path, defs), tag, workers=1, timeout=ctx.pick(1500, 5400))
+        r = ctx.tlc(module, cfg % {"trace": path, "defs": defs}, tag, workers=1, timeout=ctx.pick(1500, 5400))
         return path, r
     t1 = time.time()
     results = par_map(validate, files)
@@ -96,7 +96,7 @@ def trace_files_stage(ctx, driver, prefix, nfiles, module="Trace_Balloon", cfg=N
         for k, v in kinds.items():
             ctx.count("ev_" + k, v)
         viol = parse_viol(r["out"])
-        if viol is None or r.get("depth") != n:
+        if viol is None or r.get("depth") not in (n, n + 1):
             tail = "\n".join(r["out"].splitlines()[-25:])
             raise Infra("trace %s not fully consumed by %s (depth %s of %d)\n%s" % (path, module, r.get("depth"), n, tail))
         for shadow, prop, line, what in viol:
@@ -154,6 +154,55 @@ RULE_BALLOON = ("MC: every tree size up to MaxN, every (index, version)/(start, 
                 "batch/cache boundary + random ones; random Add/AddBulk splits, duplicates, reopen points, RocksDB and B+ store); "
                 "a case is distinct by (event kind, versions involved); non-trivial = add/member/incr events (resets excluded)")
 
+SIMPLE_TRACE_CFG = """SPECIFICATION Spec
+CONSTANTS
+  TraceFile = "%(trace)s"
+INVARIANT Report
+POSTCONDITION Accepted
+VIEW View
+CHECK_DEADLOCK FALSE
+"""
+
+
+def store_tv_stage(ctx):
+    """random operation sequences on BPlusTreeStore and RocksDBStore -> Trace_Store.tla"""
+    trace_files_stage(ctx, "store", "store", ctx.pick(8, 16), module="Trace_Store", cfg=SIMPLE_TRACE_CFG)
+
+
+def logstore_tv_stage(ctx):
+    """random operation sequences on the real raft log store -> Trace_LogStore.tla"""
+    trace_files_stage(ctx, "logstore", "logstore", ctx.pick(8, 16), module="Trace_LogStore", cfg=SIMPLE_TRACE_CFG)
+
+
+mc_store = mc_stage("MC_Store", """SPECIFICATION Spec
+CONSTANT MaxOps = @MaxOps@
+INVARIANT ScanLemma
+INVARIANT LastLemma
+INVARIANT RangeLemma
+PROPERTY Isolation
+CHECK_DEADLOCK FALSE
+""", quick={"MaxOps": 2}, thorough={"MaxOps": 3})
+
+mc_logstore = mc_stage("MC_LogStore", """SPECIFICATION Spec
+CONSTANTS
+  N = @N@
+  MaxOps = @MaxOps@
+INVARIANT FirstLast
+INVARIANT KeyIsIndex
+PROPERTY DeleteExact
+PROPERTY LastStoreWins
+CHECK_DEADLOCK FALSE
+""", quick={"N": 3, "MaxOps": 3}, thorough={"N": 4, "MaxOps": 4})
+
+RULE_STORE = ("MC: the sorted-map model with 3 tables x 4 keys x 2 values, all batches of <= 2 mutations, MaxOps batches, exhaustive "
+              "(scan/last/range lemmas, table isolation). TV: seeded operation sequences (atomic multi-table batches with overwrites, "
+              "get, inclusive ranges incl. empty/inverted bounds, paged full scans with page sizes 1..7 and 1000, last-key, close+reopen) "
+              "on both back-ends with keys from {empty, 0x00, 0xff.., table-prefix look-alikes, 10-byte history keys, 34-byte hyper keys}; "
+              "every reply compared with the model by TLC; distinct = (operation, arguments)")
+RULE_LOGSTORE = ("MC: indexes 1..N, 2 terms, all store/store-2/delete-range sequences up to MaxOps, exhaustive. TV: seeded sequences of "
+                 "store-one/many (appends, overwrites, sparse), get (fresh and reused destination), delete-range (single, empty, all, "
+                 "overlapping), first/last, set/get/uint64 and reopen around the 1-, 2- and 3-byte index boundaries on the real RocksDB log store")
+
 MCB_CFG = """SPECIFICATION Spec
 CONSTANTS
   MaxLen = @MaxLen@
@@ -183,6 +232,8 @@ PLANS = {
     "C02": plan("model_checking", [mc_balloon, adversary_tv_stage], RULE_ADV),
     "C03": plan("model_checking", [mc_history, balloon_tv_stage], RULE_BALLOON),
     "C04": plan("model_checking", [mc_history, balloon_tv_stage], RULE_BALLOON),
+    "C14": plan("model_checking", [mc_store, store_tv_stage], RULE_STORE),
+    "C15": plan("model_checking", [mc_logstore, logstore_tv_stage], RULE_LOGSTORE),
     "C12": plan("model_checking", [mc_balloon, adversary_tv_stage], RULE_ADV),
 }
 
@@ -195,7 +246,7 @@ def replay(ctx, path):
     rc = 0
     for f in sorted(glob.glob(os.path.join(d, "*_[0-9][0-9].ndjson"))):
         defs = f.replace(".ndjson", ".defs.ndjson")
-        r = ctx.tlc("Trace_Balloon", BALLOON_CFG % (f, defs), "replay", workers=1, timeout=3000)
+        r = ctx.tlc("Trace_Balloon", BALLOON_CFG % {"trace": f, "defs": defs}, "replay", workers=1, timeout=3000)
         for shadow, prop, line, what in parse_viol(r["out"]) or []:
             if prop == ctx.pid or (shadow and ctx.pid == "C08"):
                 print("line %d: %s" % (line, what))
